@@ -1914,7 +1914,17 @@ class Interp:
                             elif cur is not None:
                                 base.fields[node.attr] = self.havoc_like(cur, "lm_" + node.attr)
                             continue
-                    v = self.ev(node, env)
+                    try:
+                        v = self.ev(node, env)
+                    except Unsupported:
+                        # the mutated path mentions a name that is only bound inside the body (e.g.
+                        # `d.setdefault(k, []).append(x)` with k assigned in the loop): havoc the whole root container
+                        r2 = node
+                        while isinstance(r2, (ast.Attribute, ast.Subscript, ast.Call)):
+                            r2 = r2.func if isinstance(r2, ast.Call) else r2.value
+                        v = env.lookup(r2.id) if isinstance(r2, ast.Name) else None
+                        if v is None:
+                            raise
                 finally:
                     self.spec = saved
                 if isinstance(v, (VSeq, VMap, VSet, VObj, VDictRec)):
